@@ -78,10 +78,9 @@ Theorem C16_takeSample_deterministic :
   value (takeSample fexp flog A K key_of keq O wr num (KInt z) parts g1)
   = value (takeSample fexp flog A K key_of keq O wr num (KInt z) parts g2).
 Proof. exact takeSample_deterministic. Qed.
-Theorem C16_randomSplit_deterministic :
-  forall A (O : oracle) ws seed (parts : list (list A)) g1 g2,
-  randomSplit A O ws seed parts g1 = randomSplit A O ws seed parts g2.
-Proof. exact randomSplit_deterministic. Qed.
+(* randomSplit reseeds the module-level generator before drawing, so its model does not read the incoming
+   state at all (definitional, hence not listed as a theorem; the tie is the generator-usage signature that the
+   correspondence compares). *)
 (* non-vacuity of the [Ok] hypotheses: Bernoulli sampling succeeds when every task has one draw per element *)
 Theorem C16_sample_total :
   forall fexp A K key_of keq (O : oracle) p z (parts : list (list A)) g,
